@@ -276,8 +276,8 @@ func init() {
 		Thorough:    []Run{{Scenario: "gang-sparse", Depth: 9, MapModes: []int{1}}, {Scenario: "gang-Soft", Depth: 9, MapModes: []int{1, 2}}, {Scenario: "gang-Hard", Depth: 9, MapModes: []int{1, 2}}},
 		QuickBudget: 150 * time.Second, ThoroughBudget: 12 * time.Minute})
 	registerCheck(&CheckDef{Prop: "C09", Level: "model_checking", Technique: tE1,
-		Quick:       []Run{{Scenario: "reserve", Depth: 7, MapModes: []int{1}}, {Scenario: "reserve-bind", Depth: 6, MapModes: []int{1}}},
-		Thorough:    []Run{{Scenario: "reserve-bind", Depth: 9, MapModes: []int{1, 2}}, {Scenario: "reserve", Depth: 9, MapModes: []int{1, 2, 3}}},
+		Quick:       []Run{{Scenario: "reserve", Depth: 7, MapModes: []int{1}}, {Scenario: "reserve-bind", Depth: 6, MapModes: []int{1}}, {Scenario: "reserve-two", Depth: 6, MapModes: []int{1}}},
+		Thorough:    []Run{{Scenario: "reserve-bind", Depth: 9, MapModes: []int{1, 2}}, {Scenario: "reserve", Depth: 9, MapModes: []int{1, 2, 3}}, {Scenario: "reserve-two", Depth: 8, MapModes: []int{1, 2}}},
 		QuickBudget: 150 * time.Second, ThoroughBudget: 12 * time.Minute})
 	registerCheck(&CheckDef{Prop: "C10", Level: "model_checking", Technique: tE1,
 		Quick:       []Run{{Scenario: "lifecycle", Depth: 7, MapModes: []int{1}}, {Scenario: "gang-life-Soft", Depth: 6, MapModes: []int{1}}, {Scenario: "gang-life-Hard", Depth: 6, MapModes: []int{1}}, {Scenario: "lifecycle-late", Depth: 8, MapModes: []int{1}}},
